@@ -660,6 +660,24 @@ fn replay_panic_site(input: &Value) -> R {
 
 /// Edit history on a DistinguishedName against an association-list model.
 fn replay_dn_ops(input: &Value) -> R {
+	if let Some(pair) = input.get("eq_pair").and_then(|x| x.as_array()) {
+		let build = |h: &Value| {
+			let mut dn = DistinguishedName::new();
+			for op in h.as_array().unwrap_or(&vec![]) {
+				let ty = dn_type(op[1].as_str().unwrap_or("CN"));
+				if op[0] == "push" {
+					dn.push(ty, op[2].as_str().unwrap_or(""));
+				} else {
+					dn.remove(ty);
+				}
+			}
+			dn
+		};
+		let (a, b) = (build(&pair[0]), build(&pair[1]));
+		let ea: Vec<String> = a.iter().map(|(t, v)| format!("{:?}={:?}", t, v)).collect();
+		let eb: Vec<String> = b.iter().map(|(t, v)| format!("{:?}={:?}", t, v)).collect();
+		return Ok(((a == b) == (ea == eb), json!({"eq": a == b, "enumerations": [ea, eb]}), json!("== exactly when the enumerations are equal")));
+	}
 	let mut dn = DistinguishedName::new();
 	let mut model: Vec<(DnType, String)> = vec![];
 	let mut ok = true;
@@ -738,7 +756,44 @@ fn replay_dn_search(input: &Value) -> R {
 			}
 		}
 	}
-	Ok((true, json!({"histories_tried": tried, "max_len": max_len, "types": nt}), json!("model agreement on every history")))
+	// equality of two names must mean equality of their enumerations: all pairs of histories up to length 3
+	let mut short: Vec<(Vec<Value>, DistinguishedName, Vec<String>)> = vec![];
+	let mut stack2: Vec<Vec<usize>> = vec![vec![]];
+	while let Some(seq) = stack2.pop() {
+		let hist: Vec<Value> = seq.iter().map(|i| ops[*i].clone()).collect();
+		let mut dn = DistinguishedName::new();
+		for op in &hist {
+			let ty = dn_type(op[1].as_str().unwrap_or("CN"));
+			if op[0] == "push" {
+				dn.push(ty, op[2].as_str().unwrap_or(""));
+			} else {
+				dn.remove(ty);
+			}
+		}
+		let en: Vec<String> = dn.iter().map(|(t, v)| format!("{:?}={:?}", t, v)).collect();
+		short.push((hist, dn, en));
+		if seq.len() < 3.min(max_len) {
+			for i in 0..ops.len() {
+				let mut n = seq.clone();
+				n.push(i);
+				stack2.push(n);
+			}
+		}
+	}
+	let mut pairs = 0u64;
+	for a in 0..short.len() {
+		for b in a + 1..short.len() {
+			pairs += 1;
+			if (short[a].1 == short[b].1) != (short[a].2 == short[b].2) {
+				return Ok((
+					false,
+					json!({"found_input": {"eq_pair": [short[a].0, short[b].0]}, "observed": {"eq": short[a].1 == short[b].1, "enumerations": [short[a].2, short[b].2]}, "histories_tried": tried}),
+					json!("two names are equal exactly when their enumerations are equal"),
+				));
+			}
+		}
+	}
+	Ok((true, json!({"histories_tried": tried, "eq_pairs_tried": pairs, "max_len": max_len, "types": nt}), json!("model agreement on every history; == agrees with enumeration equality")))
 }
 
 /// C03: import a CA certificate whose subject repeats an attribute type (CN=a,CN=b — obtained by
